@@ -109,11 +109,23 @@ Proof.
     destruct track; (eapply trans_op; [reflexivity|exact Ho|reflexivity|right; eapply fo_body_write; exact E]).
   - destruct h; cbn [fst]; try apply trans_refl.
     destruct (call_write_body c input cap) as [[[c' used] out]| |]; cbn [fst]; try apply trans_refl.
-    destruct track; (apply trans_noflow; [reflexivity|cbn; discriminate]).
+    + destruct track; (apply trans_noflow; [reflexivity|cbn; discriminate]).
+    + apply trans_noflow; [reflexivity|cbn; discriminate].
 Qed.
 
 Definition special (o : op) : bool :=
   match o with ONew _ | OAsNewFlow _ | OFollow => true | _ => false end.
+
+(** The arms of [step] for the single call past the request: the object stays a call or is gone. *)
+Ltac call_arms :=
+  unfold do_call_into_receive;
+  repeat match goal with
+  | |- context [match into_receive ?c with _ => _ end] => destruct (into_receive c)
+  | |- context [match c_reader ?c with _ => _ end] => destruct (c_reader c) as [[| | |]|]
+  | |- context [match call_try_response ?c ?b with _ => _ end] => destruct (call_try_response c b) as [[? ?]|?|?]
+  | |- context [match call_read ?c ?b ?cap with _ => _ end] => destruct (call_read c b cap) as [[[? ?] ?]|?|?]
+  end; cbn [fst];
+  first [apply trans_refl | apply trans_noflow; [reflexivity|cbn; discriminate]].
 
 Lemma step_trans s o : special o = false -> trans s (fst (step s o)).
 Proof.
@@ -125,6 +137,7 @@ Proof.
   all: destruct (s_obj s) as [|t f|h c] eqn:Ho; try apply trans_refl.
   all: try (destruct t; try apply trans_refl).
   all: try (destruct h; try apply trans_refl).
+  all: try (solve [call_arms]).
   all: try (apply do_proceed_trans; exact Ho).
   all: try apply do_premature_trans.
   all: try (apply do_try100_trans; exact Ho).
@@ -134,8 +147,8 @@ Proof.
   - intros a E. eapply fo_header. exact E.
   - intros a E. eapply fo_despite. exact E.
   - intros [f' out] E. eapply fo_write. exact E.
-  - destruct (call_write_nobody c cap) as [[c' out]| |]; cbn [fst]; try apply trans_refl.
-    apply trans_noflow; [reflexivity|cbn; discriminate].
+  - destruct (call_write_nobody c cap) as [[c' out]| |]; cbn [fst]; try apply trans_refl;
+      (apply trans_noflow; [reflexivity|cbn; discriminate]).
   - intros a E. eapply fo_body_direct. exact E.
   - intros a E. eapply fo_stop. exact E.
 Qed.
